@@ -230,3 +230,11 @@ pub open spec fn splice(s: Seq<u8>, a: int, b: int, c: Seq<u8>) -> Seq<u8> {
     s.subrange(0, a) + c + s.subrange(b, s.len() as int)
 }
 } // verus!
+
+verus! {
+// literal texts as applications of one spec function each (so that two mentions are the same term)
+pub open spec fn sq0() -> Seq<u8> { Seq::<u8>::empty() }
+pub open spec fn sq1(a: u8) -> Seq<u8> { seq![a] }
+pub open spec fn sq2(a: u8, b: u8) -> Seq<u8> { seq![a, b] }
+pub open spec fn sq3(a: u8, b: u8, c: u8) -> Seq<u8> { seq![a, b, c] }
+} // verus!
